@@ -198,6 +198,7 @@ REG_ALGOS = (
     "MOERegressor",
     "PCERegressor",
     "OTGaussianProcessRegressor",
+    "GaussianProcessRegressor",
 )
 SLOW = ("PCERegressor", "OTGaussianProcessRegressor", "MOERegressor")
 
@@ -239,7 +240,10 @@ def gen_reg_case(rng: common.Rng, algo: str | None = None, kernel: str | None = 
         case["chain"] = [gen_sub_algo(rng) for _ in range(rng.randint(1, 3))]
     elif algo == "MOERegressor":
         opts["hard"] = True
-        case["moe"] = {"n_clusters": rng.pick([2, 2, 3]), "n_neighbors": 1, "regressor": gen_sub_algo(rng, allow_rbf=False)}
+        case["moe"] = {"n_clusters": rng.pick([2, 2, 3]), "n_neighbors": 1, "regressor": gen_sub_algo(rng, allow_rbf=rng.chance(0.4))}
+        if case["moe"]["regressor"][0] == "RBFRegressor":
+            # local models trained with one or two points: kernels with phi(0) != 0 and an explicit width stay regular
+            case["moe"]["regressor"][1] = {"function": rng.pick(["multiquadric", "inverse_multiquadric", "gaussian"]), "epsilon": rng.pick(["1/2", "3/4", "1"])}
         n = rng.randint(10, 14)
     elif algo == "PCERegressor":
         opts["degree"] = rng.randint(1, 3)
@@ -249,10 +253,12 @@ def gen_reg_case(rng: common.Rng, algo: str | None = None, kernel: str | None = 
     elif algo == "OTGaussianProcessRegressor":
         dout = 1
         n = rng.randint(6, 9)
+    elif algo == "GaussianProcessRegressor":
+        n = rng.randint(5, 8)
     case["opts"] = opts
     case["in"] = split_sizes(rng, din, ["a", "b", "c"])
     case["out"] = split_sizes(rng, dout, ["y", "z", "w"])
-    rbf_like = algo in ("RBFRegressor", "TPSRegressor", "OTGaussianProcessRegressor") or (
+    rbf_like = algo in ("RBFRegressor", "TPSRegressor", "OTGaussianProcessRegressor", "GaussianProcessRegressor") or (
         algo == "RegressorChain" and any(s == "RBFRegressor" for s, _ in case["chain"])
     )
     if rbf_like:
@@ -308,6 +314,11 @@ def gen_reg_case(rng: common.Rng, algo: str | None = None, kernel: str | None = 
             case["tr"] = {"inputs": gen_tr_spec(rng, d_in, n), "outputs": gen_tr_spec(rng, d_out, n, is_input=False)}
             if algo == "PCERegressor":
                 case["tr"].pop("inputs")
+    if algo == "GaussianProcessRegressor" and case["tr"]:
+        # its length-scale bounds are sized before the transformers are fitted: scalers only
+        for k in list(case["tr"]):
+            if "PCA" in spec_names(case["tr"][k]):
+                case["tr"][k] = rng.pick([["MinMaxScaler", {}], ["StandardScaler", {}]])
     if rbf_like:
         sanitize_rbf_case(rng, case, n)
     if algo in ("PCERegressor", "OTGaussianProcessRegressor") and case["tr"]:
@@ -320,6 +331,11 @@ def gen_reg_case(rng: common.Rng, algo: str | None = None, kernel: str | None = 
                 case["tr"][k] = gen_tr_spec(rng, dim, n, is_input=(k == "inputs"))
             if nested_reduction(case["tr"][k]):
                 case["tr"].pop(k)
+    # the learning set can be a subset of the samples of the dataset
+    if rng.chance(0.15) and algo not in ("MOERegressor", "PCERegressor"):
+        keep = sorted(rng.sample(range(n), max(4, n - rng.randint(1, 3)))) if n > 4 else list(range(n))
+        if len(keep) < n:
+            case["samples"] = keep
     # query points: dyadic, away from the learning points
     case["q"] = gen_queries(rng, pts, din, rng.pick([2, 3]))
     return case
@@ -436,8 +452,18 @@ def interpolating(case) -> bool:
     if algo in ("RBFRegressor", "TPSRegressor"):
         if o.get("smooth") not in (None, "0"):
             return False
-    elif algo == "OTGaussianProcessRegressor":
+    elif algo in ("OTGaussianProcessRegressor", "GaussianProcessRegressor"):
         pass
+    elif algo == "RegressorChain":
+        # the last regressor interpolates the residuals of the previous ones
+        sub, so = case["chain"][-1]
+        if sub != "RBFRegressor" or so.get("smooth") not in (None, "0"):
+            return False
+    elif algo == "MOERegressor":
+        # hard 1-nearest-neighbour classification sends a learning point to the local model trained with it
+        sub, so = case["moe"]["regressor"]
+        if sub != "RBFRegressor" or not o.get("hard") or int(case["moe"].get("n_neighbors", 1)) != 1:
+            return False
     else:
         return False
     # lossy transformers (dimension reduction of the outputs/inputs) break interpolation legitimately
@@ -470,13 +496,15 @@ def check_reg(case: dict[str, Any], res: Result | None = None, deep: bool = True
     try:
         model = L.build_model(case)
     except Exception as e:  # noqa: BLE001
-        if case["algo"] in OT_ALGOS and case.get("tr"):
+        if case["algo"] in OT_ALGOS:
             # the OpenTURNS-based fits are not modelled (dimension bookkeeping of reduced inputs, optimiser failures)
             count("ot-fit-failed-skipped")
             return []
         return [(f"crash-learn:{tag}:{type(e).__name__}", f"creating/training the model raised {type(e).__name__}: {str(e)[:200]}")]
     icols, ocols, sizes = L.model_layout(case, model)
     X, Y = L.arr(case["X"]), L.arr(case["Y"])
+    if case.get("samples"):
+        X, Y = X[[int(i) for i in case["samples"]]], Y[[int(i) for i in case["samples"]]]
     Xm, Ym = X[:, icols], Y[:, ocols]
     Q = L.arr(case["q"])[:, icols] if case["q"] else np.zeros((0, len(icols)))
     din, dout = len(icols), len(ocols)
@@ -517,6 +545,11 @@ def check_reg(case: dict[str, Any], res: Result | None = None, deep: bool = True
             asm = np.concatenate([np.asarray(pd[o], dtype=float) for o in model.output_names])
             if not L.within(asm, P1[k], L.TWO40):
                 bad.append((f"predict-dict:{tag}", f"dictionary prediction {asm} differs from the array prediction {P1[k]}"))
+        if len(Q) >= 2:
+            pdb = model.predict(L.to_dict(Q, model.input_names, sizes))
+            asm = np.concatenate([np.asarray(pdb[o], dtype=float).reshape(len(Q), sizes[o]) for o in model.output_names], axis=1)
+            if not L.within(asm, PB, L.TWO40):
+                bad.append((f"predict-dict:{tag}", "dictionary prediction of several points differs from the array prediction"))
     except Exception as e:  # noqa: BLE001
         bad.append((f"crash-predict-dict:{tag}:{type(e).__name__}", f"predict with a dictionary raised {type(e).__name__}: {str(e)[:200]}"))
     # ---- interpolation of the learning data
@@ -597,6 +630,13 @@ def check_reg(case: dict[str, Any], res: Result | None = None, deep: bool = True
                 asm = np.block(blocks)
                 if not L.within(asm, J1[0], L.TWO40):
                     bad.append((f"jacobian-dict:{tag}", "the dictionary Jacobian blocks differ from the array Jacobian"))
+            if J1 is not None and len(Q) >= 2 and all(J.shape == (dout, din) for J in J1):
+                Jdb = model.predict_jacobian(L.to_dict(Q, model.input_names, sizes))
+                for k in range(len(Q)):
+                    blocks = [[np.asarray(Jdb[o][i], dtype=float)[k].reshape(sizes[o], sizes[i]) for i in model.input_names] for o in model.output_names]
+                    if not L.within(np.block(blocks), J1[k], L.TWO20):
+                        bad.append((f"jacobian-dict:{tag}", f"the dictionary Jacobian of several points differs from the array Jacobian at point {k}"))
+                        break
         except NotImplementedError:
             pass
         except Exception as e:  # noqa: BLE001
@@ -693,7 +733,7 @@ def reg_candidates(case):
             yield c2
     # fewer learning points
     n = len(case["X"])
-    if n > 4:
+    if n > (8 if case["algo"] in ("MOERegressor", "PCERegressor") else 4) and not case.get("samples"):
         for j in range(n):
             c2 = copy.deepcopy(case)
             c2["X"] = case["X"][:j] + case["X"][j + 1 :]
@@ -1053,7 +1093,7 @@ def run(ctx) -> Result:
             must.append(gen_reg_case(rng, "RBFRegressor", kernel=k))
     for k in L.CALLABLES:
         must.append(gen_reg_case(rng, "RBFRegressor", kernel=k))
-    for a in ("LinearRegressor", "PolynomialRegressor", "TPSRegressor", "RegressorChain", "MOERegressor", "PCERegressor", "OTGaussianProcessRegressor"):
+    for a in ("LinearRegressor", "PolynomialRegressor", "TPSRegressor", "RegressorChain", "MOERegressor", "PCERegressor", "OTGaussianProcessRegressor", "GaussianProcessRegressor"):
         must.append(gen_reg_case(rng, a))
     run_reg_cases(res, must)
     run_tr_cases(res, [gen_tr_case(rng) for _ in range(n_tr)])
